@@ -179,10 +179,12 @@ func init() {
 			job(sc(sim.RelCfg("c06-rel-k4-any-batch", 0, 4, 0, 8, fBld|fRet|fBRem|fBSet, oBasic).P("C06")), pick(tier, 6, 8), 3),
 			job(sc(sim.RelCfg("c06-rel-k4-any-reset", 0, 4, 0, 8, fBld|fMove|fReset|fBRem, oBasic).P("C06")), pick(tier, 6, 8), 2),
 			job(sc(sim.RelCfg("c06-rel-k5-2p-life", 0, 5, 2, 8, fBld|fMove|fRet|fBRem, oBasic).P("C06")), pick(tier, 7, 10), 3),
-			job(sc(sim.RelCfg("c06-rel-k3-any-val", 0, 3, 0, 1, fBld|fRet|fVal|fBNew, oBasic).P("C06")), pick(tier, 5, 7), 2),
+			job(sc(sim.RelCfg("c06-rel-k3-any-val", 0, 3, 0, 1, fBld|fRet|fVal|fBNew|fReset, oBasic).P("C06")), pick(tier, 5, 7), 2),
 			job(sc(sim.Rel2Cfg("c06-rel2-k4-any-life", 4, 0, 8, fBld|fRel|fRet, oBasic).P("C06")), pick(tier, 5, 7), 2),
 			job(sc(sim.RelCfg("c06-rel-k4-any-reg-life", 0, 4, 0, 8, fBld|fMove|fReg, oBasic).P("C06")), pick(tier, 6, 8), 2),
 			job(sc(sim.BoundaryTablesCfg("c06-boundary-33-tables", 2, fMove|fRet|fBRem, oBasic).P("C06")), pick(tier, 3, 4), 1),
+			job(sc(sim.RelCfg("c06-rel-k4-any-reg-reset", 0, 4, 0, 8, fBld|fReg|fReset|fRet, oBasic).P("C06")), pick(tier, 6, 8), 2),
+			job(sc(sim.RichRelCfg("c06-rich-two-nodes", 2, true, fMove|fRet|fBRem|fReset, oBasic).P("C06")), pick(tier, 4, 5), 2),
 		}
 	}, func(f *wx.Failure, _ string) bool { return true })
 
@@ -218,6 +220,7 @@ func init() {
 				return c
 			}()), pick(tier, 5, 7), 1),
 			job(sc(sim.LogicCfg("c07-logic-k3", 3, fMove|fReg|fReset, oBasic).P("C07")), pick(tier, 5, 7), 1),
+			job(sc(sim.RichRelCfg("c07-rich-two-nodes-registered", 2, true, fMove|fRet|fBRem|fReset|fPlain, oBasic).P("C07")), pick(tier, 4, 5), 2),
 			job(sc(sim.BoundaryTablesCfg("c07-boundary-33-tables", 2, fMove|fRet|fBRem|fReg|fPlain, oBasic).P("C07")), pick(tier, 3, 4), 1),
 			job(sc(sim.BoundaryNodesCfg("c07-boundary-34-nodes", 1, fMove|fReg|fBExch|fPlain, oBasic).P("C07")), pick(tier, 2, 3), 1),
 		}
@@ -248,8 +251,8 @@ func init() {
 			job(sc(sim.RelCfg("c10-rel-k3-single", 0, 3, 0, 8, fBld|fMove|fRel|fRet|fRelX|fVal|fIll, oBasic).P("C10")), pick(tier, 4, 6), 3),
 			job(sc(sim.RelCfg("c10-rel-r0-k3-single", 1, 3, 0, 8, fBld|fMove|fRel|fRet|fRelX|fIll, oBasic).P("C10")), pick(tier, 4, 6), 2),
 			job(sc(sim.Rel2Cfg("c10-rel2-k3-single", 3, 0, 8, fBld|fMove|fRel|fRet|fRelX|fIll, oBasic).P("C10")), pick(tier, 4, 5), 2),
-			job(sc(sim.CoreCfg("c10-core-k3", 3, 1, nil, fMove|fVal|fBNew|fBExch|fReg|fIll, oBasic).P("C10")), pick(tier, 4, 6), 2),
-			job(sc(sim.RelCfg("c10-rel-k3-batch-reg", 0, 3, 0, 8, fBld|fBNew|fBSet|fBExch|fBRem|fRelX|fReg|fReset|fIll, oBasic).P("C10")), pick(tier, 4, 5), 2),
+			job(sc(sim.CoreCfg("c10-core-k3", 3, 1, nil, fMove|fVal|fBNew|fBExch|fReg|fIll|fQ, oBasic).P("C10")), pick(tier, 4, 6), 2),
+			job(sc(sim.RelCfg("c10-rel-k3-batch-reg", 0, 3, 0, 8, fBld|fBNew|fBSet|fBExch|fBRem|fRelX|fReg|fReset|fIll|fQ, oBasic).P("C10")), pick(tier, 4, 5), 2),
 			// illegal calls in a locked world, rejected registrations, out-of-range query indices (also decided by C09)
 			job(scAny(&sim.LockCfg{ID: "c10-lock-q2", Q: 2, Probes: 1}), pick(tier, 5, 7), 1),
 		}
